@@ -132,11 +132,11 @@ class Program:
 class Stats:
     def __init__(self):
         self.paths = 0; self.steps = 0; self.feas_checks = 0; self.assert_checks = 0
-        self.assert_violated = 0; self.solver_s = 0.0; self.infeasible = 0
+        self.assert_violated = 0; self.solver_s = 0.0; self.infeasible = 0; self.assert_structural = 0
         self.stubs = {}; self.fns = {}; self.reached = {}
 
     def merge(self, o):
-        for k in ('paths', 'steps', 'feas_checks', 'assert_checks', 'assert_violated', 'solver_s', 'infeasible'):
+        for k in ('paths', 'steps', 'feas_checks', 'assert_checks', 'assert_violated', 'solver_s', 'infeasible', 'assert_structural'):
             setattr(self, k, getattr(self, k) + getattr(o, k))
         for d, od in ((self.stubs, o.stubs), (self.fns, o.fns), (self.reached, o.reached)):
             for k, v in od.items():
@@ -284,6 +284,7 @@ class Engine:
         """property assertion: cond must hold for every value on this path"""
         self.stats.reached[label] = self.stats.reached.get(label, 0) + 1
         if cond is True:
+            self.stats.assert_structural += 1
             return True
         self.stats.assert_checks += 1
         if cond is False:
@@ -302,8 +303,8 @@ class Engine:
             if describe is not None:
                 v.data = describe(m)
             self.violations.append(v)
-            if cond is False:
-                raise PathEnd()
+            if cond is False or self._check(cond) != z3.sat:
+                raise PathEnd()     # violated for every value on this path: nothing left to explore here
             self.add(cond)
             return False
         return True
